@@ -12,7 +12,7 @@ with tempfile.TemporaryDirectory() as d:
     passed = set()
     for tc in ET.parse(x).getroot().iter("testcase"):
         if not any(c.tag in ("failure", "error", "skipped") for c in tc):
-            passed.add(f"{tc.get('classname')}::{tc.get('name')}")
+            passed.add(f"{tc.get('classname')}::{tc.get('name')}".replace(os.path.abspath(repo), "/repo"))
 missing = [t for t in base["stable_pass"] if t not in passed]
 print(f"passed={len(passed)} baseline={len(base['stable_pass'])} baseline_missing={len(missing)}")
 for m in missing[:20]:
